@@ -248,4 +248,12 @@ def acqSource (names : List (Option Str)) (a : OptionalAttrs) : Except PyErr Acq
   else if a.start.isSome && a.stop.isSome then .ok .startEnd
   else .ok .absent
 
+/-- the keywords (format templates) `FCSData.__new__` looks up, in order of first use, and the vendor marks in `CREATOR`
+that switch on the fallback keywords — the names this model reads through `get d …` -/
+def keywordsRead : List String :=
+  ["$TIMESTEP", "TIMETICKS", "$DATATYPE", "$DATE", "$BTIM", "$ETIM", "$PAR", "$P{}N", "$P{}E", "$P{}R", "$P{}V", "CREATOR", "BD$WORD{}",
+   "$P{}G", "CytekP{:02d}G", "$P{}S"]
+
+def vendorMarksRead : List String := ["CellQuest Pro", "FlowJoCollectorsEdition"]
+
 end FlowCal.Meta
